@@ -239,6 +239,7 @@ type modelResp struct {
 	UniqueFragNames bool   `json:"uniqueFragNames"`
 	LocsDistinct    bool   `json:"locsDistinct"`
 	Coherent        bool   `json:"coherent"`
+	Complete        bool   `json:"complete"`
 	Bounds          struct {
 		Sets        uint64 `json:"sets"`
 		SpreadNames uint64 `json:"spreadNames"`
@@ -394,6 +395,9 @@ func main() {
 			run.Tag("overlap_sound-hypothesis-holds")
 		} else {
 			run.Tag("overlap_sound-hypothesis-fails")
+		}
+		if m.Complete {
+			run.Tag("overlap_iff_naive_acyclic-hypothesis-holds")
 		}
 		if !m.LocsDistinct || !m.UniqueFragNames {
 			run.CheckError("generator invariant broken (distinct selection-set locations, unique fragment names): " + c.Src)
